@@ -192,20 +192,49 @@ fn process_file_into(
             let buffer = emit_recursive_ascent(&session, &grammar, report_file)?;
             #[cfg(lalrpop_verif)]
             crate::verif::crash_point("after_generate");
-            let mut output_file = fs::File::create(rs_file)?;
+            // `needs_rebuild` only looks at the two header lines, so a file
+            // with a current header must always be complete: write to a
+            // temporary sibling and rename it over the output once
+            // everything has been written. An interrupted or failing write
+            // then leaves no output at all, and the next build redoes it.
+            let tmp_file = temp_sibling(rs_file);
+            let written = write_output(&tmp_file, lalrpop_file, &buffer)
+                .and_then(|()| fs::rename(&tmp_file, rs_file));
+            if written.is_err() {
+                let _ = fs::remove_file(&tmp_file);
+            }
+            written?;
             #[cfg(lalrpop_verif)]
-            crate::verif::crash_point("after_create");
-            writeln!(output_file, "{LALRPOP_VERSION_HEADER}")?;
-            #[cfg(lalrpop_verif)]
-            crate::verif::crash_point("after_ver");
-            writeln!(output_file, "{}", hash_file(lalrpop_file)?)?;
-            #[cfg(lalrpop_verif)]
-            crate::verif::crash_point("after_hash");
-            output_file.write_all(&buffer)?;
-            #[cfg(lalrpop_verif)]
-            crate::verif::crash_point("after_body");
+            crate::verif::crash_point("after_rename");
         }
     }
+    Ok(())
+}
+
+/// `foo.rs` -> `foo.rs.tmp`, in the same directory (so that the rename
+/// never crosses a file system boundary).
+fn temp_sibling(rs_file: &Path) -> PathBuf {
+    let mut name = rs_file
+        .file_name()
+        .map(|name| name.to_os_string())
+        .unwrap_or_default();
+    name.push(".tmp");
+    rs_file.with_file_name(name)
+}
+
+fn write_output(tmp_file: &Path, lalrpop_file: &Path, buffer: &[u8]) -> io::Result<()> {
+    let mut output_file = fs::File::create(tmp_file)?;
+    #[cfg(lalrpop_verif)]
+    crate::verif::crash_point("after_create");
+    writeln!(output_file, "{LALRPOP_VERSION_HEADER}")?;
+    #[cfg(lalrpop_verif)]
+    crate::verif::crash_point("after_ver");
+    writeln!(output_file, "{}", hash_file(lalrpop_file)?)?;
+    #[cfg(lalrpop_verif)]
+    crate::verif::crash_point("after_hash");
+    output_file.write_all(buffer)?;
+    #[cfg(lalrpop_verif)]
+    crate::verif::crash_point("after_body");
     Ok(())
 }
 
